@@ -77,6 +77,23 @@ fn n_ctor_large_contents() {
         }
         cases += 1;
     }
+    // more colours than the 16-bit count field can represent: no encoding of the arguments exists, so the
+    // only outcome compatible with C07 is a controlled panic (never a tag whose count field disagrees
+    // with the colours it carries)
+    for n in [65536usize, 65537, 70000] {
+        let pal: Vec<FramebufferColor> = (0..n).map(|i| FramebufferColor { red: i as u8, green: (i >> 8) as u8, blue: (i >> 16) as u8 }).collect();
+        let r = std::panic::catch_unwind(|| {
+            let t = FramebufferTag::new(0, 0, 1, 1, 8, FramebufferType::Indexed { palette: &pal });
+            match t.buffer_type() {
+                Ok(FramebufferType::Indexed { palette }) => palette.len(),
+                _ => usize::MAX,
+            }
+        });
+        if let Ok(read_back) = r {
+            assert_eq!(read_back, n, "FramebufferTag::new accepted {n} colours but the tag reads back {read_back}");
+        }
+        cases += 1;
+    }
     let t = FramebufferTag::new(1, 2, 3, 4, 32, FramebufferType::RGB {
         red: FramebufferField { position: 16, size: 8 }, green: FramebufferField { position: 8, size: 8 }, blue: FramebufferField { position: 0, size: 7 } });
     let mut c = Vec::new();
